@@ -18,6 +18,13 @@
 //!   (c) N foci: firmware phase follows `−arg Σ_j exp(i·2π(256·f·d_j/c + off_j − off_0)/256)` within
 //!       `2.5 + 4/ρ` steps whenever `ρ = |Σ|/N ≥ 0.3`;
 //!   (d) the emitted intensity is the requested one on every transducer (gain and STM).
+//!
+//! Devices per geometry: a third of the random poses are *rigs* of 2–3 AUTD3s with different poses and
+//! different `Device::sound_speed`; one datagram reaches all of them and every line and oracle clause is
+//! evaluated per device, against that device's transducers and sound speed (`rig` / `keep` / `dev <k>` lines
+//! tell the model which device the following lines belong to).  Invisible to the model (it computes from the
+//! records): a *used* device (long STMs, also with 8 foci per pattern, written before; the write page dirtied),
+//! a single-focus STM sent after the multi-focus ones, patterns beyond the first frame.
 #![allow(dead_code)]
 use crate::common::*;
 use crate::fwc::{World, to_div};
@@ -37,10 +44,24 @@ pub struct Pose {
     pub kind: &'static str,
 }
 
-pub fn make_geo(p: &Pose) -> Geometry {
-    let rot = UnitQuaternion::new_normalize(Quaternion::new(p.quat[0], p.quat[1], p.quat[2], p.quat[3]));
-    let mut g = Geometry::new(vec![AUTD3 { pos: Point3::new(p.pos[0], p.pos[1], p.pos[2]), rot }.into()]);
-    g.set_sound_speed(p.c);
+/// one AUTD3 per pose; a single device gets its sound speed through `Geometry::set_sound_speed`, the devices of a
+/// rig each their own through `Device::sound_speed`
+pub fn make_geo(poses: &[Pose]) -> Geometry {
+    let devs = poses
+        .iter()
+        .map(|p| {
+            let rot = UnitQuaternion::new_normalize(Quaternion::new(p.quat[0], p.quat[1], p.quat[2], p.quat[3]));
+            AUTD3 { pos: Point3::new(p.pos[0], p.pos[1], p.pos[2]), rot }.into()
+        })
+        .collect();
+    let mut g = Geometry::new(devs);
+    if poses.len() == 1 {
+        g.set_sound_speed(poses[0].c);
+    } else {
+        for (i, p) in poses.iter().enumerate() {
+            g[i].sound_speed = p.c;
+        }
+    }
     g
 }
 
@@ -72,11 +93,14 @@ pub struct StmRead {
     pub words: Vec<u64>,
     /// per pattern: (phase, intensity) of every transducer, or the panic message
     pub drives: Vec<Result<Vec<(u8, u8)>, String>>,
+    /// register read-backs that disagree with what was sent: (oracle clause, text)
+    pub notes: Vec<(&'static str, String)>,
 }
 
-/// FociSTM of `pats.len()` patterns with the same number of foci each; the records and the sound-speed
-/// word are taken from the first (only) frame on the wire
-pub fn send_stm(w: &mut World, pats: &[Pattern], intens: &[u8]) -> StmRead {
+/// FociSTM of `pats.len()` patterns with the same number of foci each, sent to every device of the world; per
+/// device: the records and the sound-speed word taken from *its* frames on the wire (any number of frames), and
+/// the drives read back from *its* emulator
+pub fn send_stm(w: &mut World, pats: &[Pattern], intens: &[u8]) -> Result<Vec<StmRead>, String> {
     let n = pats[0].len();
     w.keep_frames = true;
     let o = match n {
@@ -89,30 +113,49 @@ pub fn send_stm(w: &mut World, pats: &[Pattern], intens: &[u8]) -> StmRead {
         7 => stm_n!(7, w, pats, intens),
         _ => stm_n!(8, w, pats, intens),
     };
-    let mut r = StmRead { result: o.result.clone(), cw: 0, nf: n, words: vec![], drives: vec![] };
-    if o.result != "ok" || o.frames != 1 {
-        r.result = format!("{}:frames={}", o.result, o.frames);
-        return r;
+    if o.result != "ok" {
+        return Err(format!("{}:frames={}", o.result, o.frames));
     }
-    // TxMessage = 4-byte header + payload; payload = FociSTMHead (24 bytes; sound_speed at 6, send_num at 2) + records
-    let f = &w.frames[0].1;
-    let pl = &f[4..];
-    r.cw = u16::from_le_bytes([pl[6], pl[7]]);
-    let cnt = pl[2] as usize * n;
-    for k in 0..cnt {
-        let b: [u8; 8] = pl[24 + 8 * k..32 + 8 * k].try_into().unwrap();
-        r.words.push(u64::from_le_bytes(b));
+    let mut res = vec![];
+    for dev in 0..w.cpus.len() {
+        let mut r = StmRead { result: o.result.clone(), cw: 0, nf: n, words: vec![], drives: vec![], notes: vec![] };
+        // TxMessage = 4-byte header + payload; first payload = FociSTMHead (24 bytes; send_num at 2, sound_speed at 6) +
+        // records, later payloads = FociSTMSubseq (4 bytes; send_num at 2) + records
+        for (k, (_, f)) in w.frames.iter().filter(|(i, _)| *i == dev).enumerate() {
+            let pl = &f[4..];
+            let first = pl[1] & 1 == 1;
+            if first != (k == 0) {
+                return Err(format!("device {dev}: frame {k} has BEGIN = {first}"));
+            }
+            let off = if first { 24 } else { 4 };
+            if first {
+                r.cw = u16::from_le_bytes([pl[6], pl[7]]);
+            }
+            for j in 0..pl[2] as usize * n {
+                let b: [u8; 8] = pl[off + 8 * j..off + 8 * j + 8].try_into().unwrap();
+                r.words.push(u64::from_le_bytes(b));
+            }
+        }
+        if r.words.len() != pats.len() * n {
+            return Err(format!("device {dev}: {} records on the wire for {} patterns x {n} foci", r.words.len(), pats.len()));
+        }
+        let fpga = w.cpus[dev].fpga();
+        if fpga.sound_speed(Segment::S0) != r.cw {
+            r.notes.push(("sound-speed-register", format!("device {dev}: the sound-speed word on the wire is {} but the device holds {}", r.cw, fpga.sound_speed(Segment::S0))));
+        }
+        if fpga.num_foci(Segment::S0) as usize != n {
+            r.notes.push(("foci-per-pattern-register", format!("device {dev}: the STM has {n} foci per pattern but the device plays {}", fpga.num_foci(Segment::S0))));
+        }
+        for i in 0..pats.len() {
+            r.drives.push(guarded(|| fpga.drives_at(Segment::S0, i).iter().map(|d| (d.phase.0, d.intensity.0)).collect()));
+        }
+        res.push(r);
     }
-    let fpga = w.cpus[0].fpga();
-    debug_assert_eq!(fpga.sound_speed(Segment::S0), r.cw);
-    debug_assert_eq!(fpga.num_foci(Segment::S0) as usize, n);
-    for i in 0..pats.len() {
-        r.drives.push(guarded(|| fpga.drives_at(Segment::S0, i).iter().map(|d| (d.phase.0, d.intensity.0)).collect()));
-    }
-    r
+    Ok(res)
 }
 
-pub fn send_focus(w: &mut World, p: [f32; 3], off: u8, intensity: u8) -> (String, Vec<(u8, u8)>) {
+/// Focus gain to every device; per device its drives
+pub fn send_focus(w: &mut World, p: [f32; 3], off: u8, intensity: u8) -> (String, Vec<Vec<(u8, u8)>>) {
     let o = w.send_dg(
         Focus::new(Point3::new(p[0], p[1], p[2]), FocusOption { intensity: EmitIntensity(intensity), phase_offset: Phase(off) }),
         usize::MAX,
@@ -120,8 +163,8 @@ pub fn send_focus(w: &mut World, p: [f32; 3], off: u8, intensity: u8) -> (String
     if o.result != "ok" {
         return (o.result, vec![]);
     }
-    let d = w.cpus[0].fpga().drives_at(Segment::S0, 0);
-    (o.result, d.iter().map(|d| (d.phase.0, d.intensity.0)).collect())
+    let ds = w.cpus.iter().map(|c| c.fpga().drives_at(Segment::S0, 0).iter().map(|d| (d.phase.0, d.intensity.0)).collect()).collect();
+    (o.result, ds)
 }
 
 fn rotm(q: [f64; 4]) -> [[f64; 3]; 3] {
@@ -155,17 +198,45 @@ fn drives_hex(d: &[(u8, u8)]) -> String {
     hex(&v)
 }
 
-/// a device pose with everything read back from the real `Device`
-struct Dev {
-    w: World,
+/// one device of a rig, with everything read back from the real `Device`
+struct Info {
     pose: Pose,
     pose_line: String,
     /// rotation matrix of the stored quaternion, transducer positions (f64 copies of the f32s)
     r: [[f64; 3]; 3],
     trs: Vec<[f64; 3]>,
     c: f64,
-    /// a *used* device: a long STM is written to the other segment right before every STM under test
+}
+
+/// a geometry of 1..3 posed devices and their emulators
+struct Dev {
+    w: World,
+    infos: Vec<Info>,
+    /// the device in whose local frame the test points are generated
+    home: usize,
+    /// a *used* rig: a long STM is written to the other segment right before every STM under test
     used: bool,
+}
+
+impl Dev {
+    fn h(&self) -> &Info {
+        &self.infos[self.home]
+    }
+    /// replay head for an observation on device `k`: the pose line(s) the model needs
+    fn head(&self, k: usize) -> Vec<String> {
+        if self.infos.len() == 1 {
+            vec![self.infos[0].pose_line.clone()]
+        } else {
+            let mut v: Vec<String> = self.infos.iter().enumerate().map(|(j, i)| format!("device {j} of {}: {}", self.infos.len(), i.pose_line)).collect();
+            v.push(format!("observed on device {k}"));
+            v
+        }
+    }
+    /// stable key part naming the device observed (and its place in the rig)
+    fn key(&self, k: usize) -> String {
+        let p = self.infos[k].pose_line.replace(' ', "_");
+        if self.infos.len() == 1 { p } else { format!("dev{k}of{}:{p}", self.infos.len()) }
+    }
 }
 
 struct Ctx {
@@ -190,62 +261,108 @@ impl Ctx {
         }
     }
 
-    fn open(&mut self, pose: &Pose) -> Dev {
-        let mut w = World::new(1, 0);
-        w.geo = make_geo(pose);
-        let dev = &w.geo[0];
-        let q = dev.rotation().coords; // nalgebra order: i, j, k, w
-        let stored = [q[3], q[0], q[1], q[2]];
-        let r = rotm([stored[0] as f64, stored[1] as f64, stored[2] as f64, stored[3] as f64]);
-        let trs: Vec<[f64; 3]> = dev.iter().map(|t| [t.position().x as f64, t.position().y as f64, t.position().z as f64]).collect();
-        let c = dev.sound_speed;
-        let pose_line = format!("pose {} {} {} {} {} {}", hx3(pose.pos), hx(stored[0]), hx(stored[1]), hx(stored[2]), hx(stored[3]), hx(c));
-        self.out.line(&pose_line, "ok");
-        let mut s = String::with_capacity(24 * NUM_TR);
-        for t in dev.iter() {
-            s.push_str(&hx(t.position().x));
-            s.push_str(&hx(t.position().y));
-            s.push_str(&hx(t.position().z));
+    /// tell the model which device of the rig the following lines belong to
+    fn select(&mut self, d: &Dev, k: usize) {
+        if d.infos.len() > 1 {
+            self.out.line(&format!("dev {k}"), "ok");
         }
-        self.out.line(&format!("trs {s}"), "ok");
-        self.out.count(&format!("pose:{}", pose.kind));
-        let band = if pose.c <= 300e3 { "c=300" } else if pose.c >= 400e3 { "c=400" } else if pose.c < 333e3 { "c<333" } else if pose.c < 366e3 { "c<366" } else { "c<400" };
-        self.out.count(&format!("sound-speed:{band}"));
-        // oracle: the SDK's transducer layout is the pose applied to the grid (support for `trs`)
-        'outer: for (i, t) in trs.iter().enumerate() {
-            let (gx, gy) = AUTD3::grid_id(i);
-            let l = [gx as f64 * 10.16, gy as f64 * 10.16, 0.0];
-            for a in 0..3 {
-                let ideal = pose.pos[a] as f64 + r[a][0] * l[0] + r[a][1] * l[1] + r[a][2] * l[2];
-                if (t[a] - ideal).abs() > 0.01 {
-                    self.viol(
-                        format!("C07:transducer-not-at-pose-of-grid:{}", pose_line.replace(' ', "_")),
-                        format!("transducer {i} axis {a}: stored {} but pose(grid) = {ideal}", t[a]),
-                        vec![pose_line.clone()],
-                    );
-                    break 'outer;
+    }
+
+    fn open(&mut self, poses: &[Pose], home: usize) -> Dev {
+        let mut w = World::new(poses.len(), 0);
+        w.geo = make_geo(poses);
+        let multi = poses.len() > 1;
+        if multi {
+            self.out.line("rig", "ok");
+            self.out.count(&format!("devices-per-geometry:{}", poses.len()));
+            let cs: Vec<f32> = poses.iter().map(|p| p.c).collect();
+            self.out.count(if cs.iter().all(|&c| c == cs[0]) { "rig:same-sound-speed" } else { "rig:different-sound-speeds" });
+        } else {
+            self.out.count("devices-per-geometry:1");
+        }
+        let mut infos = vec![];
+        for (k, pose) in poses.iter().enumerate() {
+            let dev = &w.geo[k];
+            let q = dev.rotation().coords; // nalgebra order: i, j, k, w
+            let stored = [q[3], q[0], q[1], q[2]];
+            let r = rotm([stored[0] as f64, stored[1] as f64, stored[2] as f64, stored[3] as f64]);
+            let trs: Vec<[f64; 3]> = dev.iter().map(|t| [t.position().x as f64, t.position().y as f64, t.position().z as f64]).collect();
+            let c = dev.sound_speed;
+            let pose_line = format!("pose {} {} {} {} {} {}", hx3(pose.pos), hx(stored[0]), hx(stored[1]), hx(stored[2]), hx(stored[3]), hx(c));
+            self.out.line(&pose_line, "ok");
+            let mut s = String::with_capacity(24 * NUM_TR);
+            for t in dev.iter() {
+                s.push_str(&hx(t.position().x));
+                s.push_str(&hx(t.position().y));
+                s.push_str(&hx(t.position().z));
+            }
+            self.out.line(&format!("trs {s}"), "ok");
+            if multi {
+                self.out.line("keep", "ok");
+            }
+            self.out.count(&format!("pose:{}", pose.kind));
+            let band = if pose.c <= 300e3 { "c=300" } else if pose.c >= 400e3 { "c=400" } else if pose.c < 333e3 { "c<333" } else if pose.c < 366e3 { "c<366" } else { "c<400" };
+            self.out.count(&format!("sound-speed:{band}"));
+            // oracle: the SDK's transducer layout is the pose applied to the grid (support for `trs`)
+            'outer: for (i, t) in trs.iter().enumerate() {
+                let (gx, gy) = AUTD3::grid_id(i);
+                let l = [gx as f64 * 10.16, gy as f64 * 10.16, 0.0];
+                for a in 0..3 {
+                    let ideal = pose.pos[a] as f64 + r[a][0] * l[0] + r[a][1] * l[1] + r[a][2] * l[2];
+                    if (t[a] - ideal).abs() > 0.01 {
+                        self.viol(
+                            format!("C07:transducer-not-at-pose-of-grid:{}", pose_line.replace(' ', "_")),
+                            format!("transducer {i} axis {a}: stored {} but pose(grid) = {ideal}", t[a]),
+                            vec![pose_line.clone()],
+                        );
+                        break 'outer;
+                    }
                 }
             }
+            // oracle: the device carries the sound speed it was given
+            if c.to_bits() != pose.c.to_bits() {
+                self.viol(
+                    format!("C07:device-sound-speed:dev{k}of{}:{}", poses.len(), pose_line.replace(' ', "_")),
+                    format!("device {k} was given sound speed {} mm/s but holds {c}", pose.c),
+                    vec![pose_line.clone()],
+                );
+            }
+            infos.push(Info { pose: pose.clone(), pose_line, r, trs, c: c as f64 });
         }
-        // every third device is a *used* one: long STMs have been written to both segments before (the shared
-        // write page is left beyond page 0, every page of the memory holds old data). What is played for the STM
-        // under test must not depend on that. The model does not see this history: it computes from the records.
+        // every third rig is a *used* one: long STMs have been written to both segments before (the shared
+        // write page is left beyond page 0, every page of the memory holds old data; every other time the one on
+        // S0 had 8 foci per pattern, so the foci-per-pattern register must go *down* for the STMs under test).
+        // What is played for the STM under test must not depend on that. The model does not see this history: it
+        // computes from the records.
         self.opened += 1;
-        if self.opened % 3 == 0 {
-            let gp = Self::to_global_raw(&trs, &r, [30.0, 40.0, 150.0]);
+        let used = self.opened % 3 == 0;
+        if used {
+            let hi = &infos[home];
+            let gp = Self::to_global_raw(&hi.trs, &hi.r, [30.0, 40.0, 150.0]);
             let long = |k: usize| -> Vec<ControlPoints<1>> {
                 (0..k).map(|j| ControlPoints::new([ControlPoint::new(Point3::new(gp[0] + (j % 50) as f32, gp[1], gp[2]), Phase((j % 251) as u8))], EmitIntensity(0x80))).collect()
             };
-            let r1 = w.send_dg(FociSTM::new(long(4200), to_div(5120)), usize::MAX).result;
+            let long8 = |k: usize| -> Vec<ControlPoints<8>> {
+                (0..k)
+                    .map(|j| {
+                        let mut cps = [ControlPoint::default(); 8];
+                        for (i, cp) in cps.iter_mut().enumerate() {
+                            *cp = ControlPoint::new(Point3::new(gp[0] + (j % 50) as f32, gp[1] + 3.0 * i as f32, gp[2]), Phase((j * 7 + i * 31) as u8));
+                        }
+                        ControlPoints::new(cps, EmitIntensity(0x80))
+                    })
+                    .collect()
+            };
+            let eight = (self.opened / 3) % 2 == 0;
+            let r1 = if eight { w.send_dg(FociSTM::new(long8(530), to_div(5120)), usize::MAX).result } else { w.send_dg(FociSTM::new(long(4200), to_div(5120)), usize::MAX).result };
             let r2 = w.send_dg(
                 autd3_driver::datagram::WithSegment { inner: FociSTM::new(long(9000), to_div(5120)), segment: Segment::S1, transition_mode: None },
                 usize::MAX,
             )
             .result;
-            self.out.count(&format!("used-device:{r1}/{r2}"));
+            self.out.count(&format!("used-device(invisible):{}:{r1}/{r2}", if eight { "8-foci-then-long" } else { "long-then-long" }));
         }
-        let used = self.opened % 3 == 0;
-        Dev { w, pose: pose.clone(), pose_line, r, trs, c: c as f64, used }
+        Dev { w, infos, home, used }
     }
 
     fn to_global_raw(trs: &[[f64; 3]], r: &[[f64; 3]; 3], lp: [f64; 3]) -> [f32; 3] {
@@ -257,179 +374,231 @@ impl Ctx {
         gp
     }
 
-    /// global f32 point of a device-local point (mm)
+    /// global f32 point of a point (mm) local to the rig's home device
     fn to_global(d: &Dev, lp: [f64; 3]) -> [f32; 3] {
-        let t0 = d.trs[0];
-        let mut gp = [0f32; 3];
-        for a in 0..3 {
-            gp[a] = (t0[a] + d.r[a][0] * lp[0] + d.r[a][1] * lp[1] + d.r[a][2] * lp[2]) as f32;
-        }
-        gp
+        Self::to_global_raw(&d.h().trs, &d.h().r, lp)
     }
 
-    fn dist(d: &Dev, gp: [f32; 3], i: usize) -> f64 {
+    fn dist(d: &Info, gp: [f32; 3], i: usize) -> f64 {
         ((gp[0] as f64 - d.trs[i][0]).powi(2) + (gp[1] as f64 - d.trs[i][1]).powi(2) + (gp[2] as f64 - d.trs[i][2]).powi(2)).sqrt()
     }
 
-    /// Focus gain at `gp`; returns the phase bytes with the offset removed
-    fn focus(&mut self, d: &mut Dev, gp: [f32; 3], off: u8, intensity: u8, tag: &str) -> Option<Vec<u8>> {
-        let (res, fd) = match guarded(|| send_focus(&mut d.w, gp, off, intensity)) {
+    /// Focus gain at `gp`; returns, per device, the phase bytes with the offset removed
+    fn focus(&mut self, d: &mut Dev, gp: [f32; 3], off: u8, intensity: u8, tag: &str) -> Option<Vec<Vec<u8>>> {
+        let (res, fds) = match guarded(|| send_focus(&mut d.w, gp, off, intensity)) {
             Ok(x) => x,
-            Err(m) => (format!("panic:{m}"), vec![]),
+            Err(m) => (format!("panic:{}", m.replace('\n', " ")), vec![]),
         };
         let line = format!("focus {} {off} {intensity}", hx3(gp));
         if res != "ok" {
             self.out.line(&format!("{line} -"), &res);
-            self.viol(format!("C07:focus-send-failed:{}:{}", d.pose_line.replace(' ', "_"), hx3(gp).replace(' ', "_")), res, vec![d.pose_line.clone(), line]);
+            let mut replay = d.head(0);
+            replay.push(line);
+            self.viol(format!("C07:focus-send-failed:{}:{}", d.key(0), hx3(gp).replace(' ', "_")), res, replay);
             return None;
         }
-        self.out.line(&format!("{line} {}", drives_hex(&fd)), "ok");
-        if self.out.samples.is_empty() {
-            self.out.sample(format!("{} | {line} {}… (249 × phase,intensity) -> ok", d.pose_line, &drives_hex(&fd)[..24]));
+        for (k, fd) in fds.iter().enumerate() {
+            self.select(d, k);
+            let info = &d.infos[k];
+            self.out.line(&format!("{line} {}", drives_hex(fd)), "ok");
+            if self.out.samples.is_empty() {
+                self.out.sample(format!("{} | {line} {}… (249 × phase,intensity) -> ok", info.pose_line, &drives_hex(fd)[..24]));
+            }
+            let key_tail = format!("{}:{}", d.key(k), hx3(gp).replace(' ', "_"));
+            let mut replay = d.head(k);
+            replay.push(line.clone());
+            let mut near_tie = 0;
+            for i in 0..NUM_TR {
+                let dd = Self::dist(info, gp, i);
+                let s = 256.0 * FREQ * dd / info.c;
+                let arr = circ(fd[i].0 as f64 - off as f64 + s);
+                let ex = arr.abs() - 0.5;
+                if ex > self.max_focus_excess {
+                    self.max_focus_excess = ex;
+                }
+                if (s.fract() - 0.5).abs() < 0.01 {
+                    near_tie += 1;
+                }
+                if arr.abs() > 0.55 {
+                    self.viol(
+                        format!("C07:focus-not-cancelling:{tag}:{key_tail}"),
+                        format!("Focus gain, device {k}, transducer {i}: phase byte {} (offset {off}) + propagation {s:.3} steps arrives {arr:.3} steps off phase zero (> 0.55)", fd[i].0),
+                        replay.clone(),
+                    );
+                    break;
+                }
+                if fd[i].1 != intensity {
+                    self.viol(
+                        format!("C07:focus-intensity:{tag}:{key_tail}"),
+                        format!("Focus gain, device {k}, transducer {i}: intensity {} but {intensity} requested", fd[i].1),
+                        replay.clone(),
+                    );
+                    break;
+                }
+            }
+            self.out.count_n("focus:contributions-within-0.01-of-a-rounding-tie", near_tie);
         }
-        let key_tail = format!("{}:{}", d.pose_line.replace(' ', "_"), hx3(gp).replace(' ', "_"));
-        let mut near_tie = 0;
-        for i in 0..NUM_TR {
-            let dd = Self::dist(d, gp, i);
-            let s = 256.0 * FREQ * dd / d.c;
-            let arr = circ(fd[i].0 as f64 - off as f64 + s);
-            let ex = arr.abs() - 0.5;
-            if ex > self.max_focus_excess {
-                self.max_focus_excess = ex;
-            }
-            if (s.fract() - 0.5).abs() < 0.01 {
-                near_tie += 1;
-            }
-            if arr.abs() > 0.55 {
-                self.viol(
-                    format!("C07:focus-not-cancelling:{tag}:{key_tail}"),
-                    format!("Focus gain, transducer {i}: phase byte {} (offset {off}) + propagation {s:.3} steps arrives {arr:.3} steps off phase zero (> 0.55)", fd[i].0),
-                    vec![d.pose_line.clone(), line.clone()],
-                );
-                break;
-            }
-            if fd[i].1 != intensity {
-                self.viol(
-                    format!("C07:focus-intensity:{tag}:{key_tail}"),
-                    format!("Focus gain, transducer {i}: intensity {} but {intensity} requested", fd[i].1),
-                    vec![d.pose_line.clone(), line.clone()],
-                );
-                break;
-            }
-        }
-        self.out.count_n("focus:contributions-within-0.01-of-a-rounding-tie", near_tie);
-        Some(fd.iter().map(|x| x.0.wrapping_sub(off)).collect())
+        Some(fds.iter().map(|fd| fd.iter().map(|x| x.0.wrapping_sub(off)).collect()).collect())
     }
 
-    /// FociSTM of the given patterns (global points + absolute phase offsets); `focus_ref[k]` = Focus
-    /// gain phases (offset removed) at pattern k's single focus, when available
-    fn stm(&mut self, d: &mut Dev, pats: &[Pattern], intens: &[u8], focus_ref: &[Option<Vec<u8>>], tag: &str) {
+    /// FociSTM of the given patterns (global points + absolute phase offsets); `focus_ref[k]` = per device the Focus
+    /// gain phases (offset removed) at pattern k's single focus, when available; `only`: the patterns whose lines
+    /// are emitted and judged (all when `None`)
+    fn stm(&mut self, d: &mut Dev, pats: &[Pattern], intens: &[u8], focus_ref: &[Option<Vec<Vec<u8>>>], tag: &str, only: Option<&[usize]>) {
         if d.used {
             // leave the shared STM write page beyond page 0 (a Focus gain sent in between resets it): 4200 foci to S1
-            let gp = Self::to_global_raw(&d.trs, &d.r, [10.0, 20.0, 180.0]);
+            let gp = Self::to_global_raw(&d.h().trs, &d.h().r, [10.0, 20.0, 180.0]);
             let long: Vec<ControlPoints<1>> =
                 (0..4200).map(|j| ControlPoints::new([ControlPoint::new(Point3::new(gp[0], gp[1] + (j % 40) as f32, gp[2]), Phase((j % 241) as u8))], EmitIntensity(0x40))).collect();
             let r = d.w.send_dg(autd3_driver::datagram::WithSegment { inner: FociSTM::new(long, to_div(5120)), segment: Segment::S1, transition_mode: None }, usize::MAX).result;
-            self.out.count(&format!("stm-on-used-device:{r}"));
+            self.out.count(&format!("stm-on-used-device(invisible):{r}"));
         }
         let n = pats[0].len();
-        let st = match guarded(|| send_stm(&mut d.w, pats, intens)) {
+        let sts = match guarded(|| send_stm(&mut d.w, pats, intens)) {
             Ok(s) => s,
-            Err(m) => StmRead { result: format!("panic:{m}"), cw: 0, nf: n, words: vec![], drives: vec![] },
+            Err(m) => Err(format!("panic:{}", m.replace('\n', " "))),
         };
         let desc: Vec<String> = pats.iter().map(|p| p.iter().map(|(g, o)| format!("{}+{o}", hx3(*g).replace(' ', ","))).collect::<Vec<_>>().join(";")).collect();
-        let key_tail = format!("{}:{}", d.pose_line.replace(' ', "_"), desc.join("|"));
-        if st.result != "ok" {
-            self.out.line(&format!("stm-failed {}", desc.join(" ")), &st.result);
-            self.viol(format!("C07:stm-send-failed:{key_tail}"), st.result.clone(), vec![d.pose_line.clone(), format!("stm {}", desc.join(" "))]);
-            return;
-        }
-        self.out.line(&format!("ss {}", st.cw), "ok");
-        self.out.count(&format!("foci-per-pattern:{n}"));
-        for (k, pat) in pats.iter().enumerate() {
-            let words = &st.words[k * n..(k + 1) * n];
-            for (j, (gp, _)) in pat.iter().enumerate() {
-                self.out.line(&format!("rec {} {:016x}", hx3(*gp), words[j]), "ok");
+        // long STMs are named by their first and last pattern
+        let desc_key = if desc.len() <= 2 { desc.join("|") } else { format!("{}|..{}..|{}", desc[0], desc.len(), desc[desc.len() - 1]) };
+        let sts = match sts {
+            Ok(s) => s,
+            Err(e) => {
+                self.out.line(&format!("stm-failed {desc_key}"), &e);
+                let mut replay = d.head(0);
+                replay.push(format!("stm {}", desc.join(" ")));
+                self.viol(format!("C07:stm-send-failed:{}:{desc_key}", d.key(0)), e, replay);
+                return;
             }
-            let io: Vec<String> = words.iter().map(|w| ((w >> 54) & 0xFF).to_string()).collect();
-            let offs: Vec<String> = pat.iter().map(|(_, o)| o.to_string()).collect();
-            self.out.line(&format!("io {} {}", intens[k], offs.join(" ")), &io.join(" "));
-            let fwline = format!("fw {} {}", st.cw, words.iter().map(|w| format!("{w:016x}")).collect::<Vec<_>>().join(" "));
-            let replay = vec![d.pose_line.clone(), format!("stm pattern {k}: {}", desc[k]), fwline.clone()];
-            match &st.drives[k] {
-                Err(m) => {
-                    self.out.line(&fwline, "panic");
-                    self.viol(format!("C07:panic:{}", panic_key(m)), format!("drives_at panicked: {m}"), replay);
+        };
+        self.out.count(&format!("foci-per-pattern:{n}"));
+        if d.w.frames.len() > d.infos.len() {
+            self.out.count(&format!("stm-frames:{}", d.w.frames.len() / d.infos.len()));
+        }
+        for (dk, st) in sts.iter().enumerate() {
+            self.select(d, dk);
+            let info = &d.infos[dk];
+            let key_tail = format!("{}:{desc_key}", d.key(dk));
+            self.out.line(&format!("ss {}", st.cw), "ok");
+            for (clause, text) in &st.notes {
+                let mut replay = d.head(dk);
+                replay.push(format!("stm {desc_key}"));
+                self.viol(format!("C07:{clause}:{tag}:n{n}:{key_tail}"), text.clone(), replay);
+            }
+            // oracle: the sound-speed word on the wire is this device's (c / 1000 * 64 within one unit)
+            if (st.cw as f64 - info.c * 0.064).abs() > 1.0 {
+                let mut replay = d.head(dk);
+                replay.push(format!("ss {}", st.cw));
+                self.viol(
+                    format!("C07:sound-speed-word:{}", d.key(dk)),
+                    format!("device {dk} has sound speed {} mm/s but its FociSTM header carries the word {} ({:.1} mm/s)", info.c, st.cw, st.cw as f64 / 0.064),
+                    replay,
+                );
+            }
+            for (k, pat) in pats.iter().enumerate() {
+                if only.is_some_and(|o| !o.contains(&k)) {
                     continue;
                 }
-                Ok(dr) => {
-                    self.out.line(&fwline, &drives_hex(dr));
-                    if n != 2 || tag.starts_with("random") {
-                        let h = drives_hex(dr);
-                        self.out.sample(format!("{} | io {} {} -> {} | {} -> {}… (249 × phase,intensity)", d.pose_line, intens[k], offs.join(" "), io.join(" "), fwline, &h[..24]));
+                let words = &st.words[k * n..(k + 1) * n];
+                for (j, (gp, _)) in pat.iter().enumerate() {
+                    self.out.line(&format!("rec {} {:016x}", hx3(*gp), words[j]), "ok");
+                }
+                let io: Vec<String> = words.iter().map(|w| ((w >> 54) & 0xFF).to_string()).collect();
+                let offs: Vec<String> = pat.iter().map(|(_, o)| o.to_string()).collect();
+                self.out.line(&format!("io {} {}", intens[k], offs.join(" ")), &io.join(" "));
+                let fwline = format!("fw {} {}", st.cw, words.iter().map(|w| format!("{w:016x}")).collect::<Vec<_>>().join(" "));
+                let mut replay = d.head(dk);
+                replay.push(format!("stm pattern {k} of {}: {}", pats.len(), desc[k]));
+                replay.push(fwline.clone());
+                match &st.drives[k] {
+                    Err(m) => {
+                        self.out.line(&fwline, "panic");
+                        self.viol(format!("C07:panic:{}", panic_key(m)), format!("drives_at panicked: {m}"), replay);
+                        continue;
                     }
-                    self.out.case(Some(fnv64(format!("{tag}:{key_tail}:{k}").as_bytes())));
-                    // (d) intensity
-                    if let Some(i) = dr.iter().position(|x| x.1 != intens[k]) {
-                        self.viol(
-                            format!("C07:stm-intensity:{tag}:n{n}:{key_tail}"),
-                            format!("FociSTM pattern {k}, transducer {i}: intensity {} but {} requested", dr[i].1, intens[k]),
-                            replay.clone(),
-                        );
-                    }
-                    if n == 1 {
-                        // (b) against the Focus gain at the same point
-                        if let Some(Some(fr)) = focus_ref.get(k) {
-                            let (gp, _) = pat[0];
-                            for i in 0..NUM_TR {
-                                let diff = circ(dr[i].0 as f64 - fr[i] as f64) as i32;
-                                self.out.count(&format!("fw-minus-focus:{diff:+}"));
-                                let dd = Self::dist(d, gp, i);
-                                if dd <= 1250.0 && !(-4..=6).contains(&diff) {
-                                    self.viol(
-                                        format!("C07:fw-vs-focus:{tag}:{key_tail}"),
-                                        format!(
-                                            "transducer {i} ({dd:.1} mm from the focus): single-focus FociSTM phase {} but Focus gain phase {} (difference {diff}, allowed -4..=6)",
-                                            dr[i].0, fr[i]
-                                        ),
-                                        replay.clone(),
-                                    );
-                                    break;
+                    Ok(dr) => {
+                        self.out.line(&fwline, &drives_hex(dr));
+                        if n != 2 || tag.starts_with("random") {
+                            let h = drives_hex(dr);
+                            self.out.sample(format!("{} | io {} {} -> {} | {} -> {}… (249 × phase,intensity)", info.pose_line, intens[k], offs.join(" "), io.join(" "), fwline, &h[..24]));
+                        }
+                        self.out.case(Some(fnv64(format!("{tag}:{key_tail}:{k}").as_bytes())));
+                        // (d) intensity
+                        if let Some(i) = dr.iter().position(|x| x.1 != intens[k]) {
+                            self.viol(
+                                format!("C07:stm-intensity:{tag}:n{n}:{key_tail}"),
+                                format!("FociSTM pattern {k}, device {dk}, transducer {i}: intensity {} but {} requested", dr[i].1, intens[k]),
+                                replay.clone(),
+                            );
+                        }
+                        if n == 1 {
+                            // (b) against the Focus gain at the same point
+                            if let Some(Some(fr)) = focus_ref.get(k) {
+                                let fr = &fr[dk];
+                                let (gp, _) = pat[0];
+                                for i in 0..NUM_TR {
+                                    let dd = Self::dist(info, gp, i);
+                                    if dd > 1250.0 {
+                                        self.out.count("fw-minus-focus:beyond-1250mm(skipped)");
+                                        continue;
+                                    }
+                                    let diff = circ(dr[i].0 as f64 - fr[i] as f64) as i32;
+                                    self.out.count(&format!("fw-minus-focus:{diff:+}"));
+                                    if !(-4..=6).contains(&diff) {
+                                        self.viol(
+                                            format!("C07:fw-vs-focus:{tag}:{key_tail}"),
+                                            format!(
+                                                "device {dk}, transducer {i} ({dd:.1} mm from the focus): single-focus FociSTM phase {} but Focus gain phase {} (difference {diff}, allowed -4..=6)",
+                                                dr[i].0, fr[i]
+                                            ),
+                                            replay.clone(),
+                                        );
+                                        break;
+                                    }
                                 }
                             }
                         }
-                    }
-                    // (c) argument of the phasor sum
-                    let mut worst: Option<(usize, f64, f64, f64)> = None;
-                    for i in 0..NUM_TR {
-                        let (mut re, mut im) = (0f64, 0f64);
-                        for (gp, o) in pat.iter() {
-                            let s = 256.0 * FREQ * Self::dist(d, *gp, i) / d.c + (o.wrapping_sub(pat[0].1)) as f64;
-                            let th = s * std::f64::consts::TAU / 256.0;
-                            re += th.cos();
-                            im += th.sin();
+                        // (c) argument of the phasor sum
+                        let mut worst: Option<(usize, f64, f64, f64)> = None;
+                        for i in 0..NUM_TR {
+                            let (mut re, mut im) = (0f64, 0f64);
+                            let mut far = false;
+                            for (gp, o) in pat.iter() {
+                                let dd = Self::dist(info, *gp, i);
+                                far |= dd > 1250.0;
+                                let s = 256.0 * FREQ * dd / info.c + (o.wrapping_sub(pat[0].1)) as f64;
+                                let th = s * std::f64::consts::TAU / 256.0;
+                                re += th.cos();
+                                im += th.sin();
+                            }
+                            if far && d.infos.len() > 1 {
+                                // the allowance is stated for foci within 1250 mm of the transducer (props.d assumptions);
+                                // only the other devices of a rig can be farther away
+                                self.out.count("multi:beyond-1250mm(skipped)");
+                                continue;
+                            }
+                            let rho = (re * re + im * im).sqrt() / n as f64;
+                            if rho < 0.3 {
+                                self.out.count("multi:phasor-sum-near-zero(skipped)");
+                                continue;
+                            }
+                            let want = -im.atan2(re) * 256.0 / std::f64::consts::TAU;
+                            let e = circ(dr[i].0 as f64 - want).abs();
+                            let tol = 2.5 + 4.0 / rho;
+                            if n > 1 && e / tol > self.max_multi_ratio {
+                                self.max_multi_ratio = e / tol;
+                            }
+                            if e > tol && worst.map(|w| e - tol > w.1 - w.3).unwrap_or(true) {
+                                worst = Some((i, e, rho, tol));
+                            }
                         }
-                        let rho = (re * re + im * im).sqrt() / n as f64;
-                        if rho < 0.3 {
-                            self.out.count("multi:phasor-sum-near-zero(skipped)");
-                            continue;
+                        if let Some((i, e, rho, tol)) = worst {
+                            self.viol(
+                                format!("C07:phasor-sum:{tag}:n{n}:{key_tail}"),
+                                format!("FociSTM pattern {k} ({n} foci), device {dk}, transducer {i}: phase {} is {e:.2} steps from -arg of the phasor sum (|sum|/N = {rho:.3}, allowed {tol:.2})", dr[i].0),
+                                replay.clone(),
+                            );
                         }
-                        let want = -im.atan2(re) * 256.0 / std::f64::consts::TAU;
-                        let e = circ(dr[i].0 as f64 - want).abs();
-                        let tol = 2.5 + 4.0 / rho;
-                        if n > 1 && e / tol > self.max_multi_ratio {
-                            self.max_multi_ratio = e / tol;
-                        }
-                        if e > tol && worst.map(|w| e - tol > w.1 - w.3).unwrap_or(true) {
-                            worst = Some((i, e, rho, tol));
-                        }
-                    }
-                    if let Some((i, e, rho, tol)) = worst {
-                        self.viol(
-                            format!("C07:phasor-sum:{tag}:n{n}:{key_tail}"),
-                            format!("FociSTM pattern {k} ({n} foci), transducer {i}: phase {} is {e:.2} steps from -arg of the phasor sum (|sum|/N = {rho:.3}, allowed {tol:.2})", dr[i].0),
-                            replay.clone(),
-                        );
                     }
                 }
             }
@@ -445,7 +614,30 @@ impl Ctx {
         self.out.count(&format!("focus-distance:{band}"));
         let f1 = self.focus(d, gp, off, intensity, tag);
         let f2 = self.focus(d, gp2, 0, 255, tag);
-        self.stm(d, &[vec![(gp, off)], vec![(gp2, 0)]], &[intensity, 255 - intensity / 2], &[f1, f2], tag);
+        self.stm(d, &[vec![(gp, off)], vec![(gp2, 0)]], &[intensity, 255 - intensity / 2], &[f1, f2], tag, None);
+    }
+
+    /// patterns beyond the first frame: `np` patterns of `n` foci along a line in front of the home device (two
+    /// frames: 74 + .. records of N = 1, 37 + .. patterns of N = 2); the first and last pattern and the two at the
+    /// frame boundary are judged (every pattern is transformed by a later `pack` call with the same `device.inv()`)
+    fn long(&mut self, d: &mut Dev, n: usize, np: usize, rng: &mut Rng, tag: &str) {
+        let base = rand_local(rng, 600.0);
+        let step = [rf(rng, -2.0, 2.0), rf(rng, -2.0, 2.0), rf(rng, -2.0, 2.0)];
+        let pats: Vec<Pattern> = (0..np)
+            .map(|k| {
+                (0..n)
+                    .map(|j| {
+                        let t = k as f64 + 0.37 * j as f64;
+                        (Self::to_global(d, [base[0] + step[0] * t, base[1] + step[1] * t, base[2] + step[2] * t + 11.0 * j as f64]), (k * 3 + j * 64) as u8)
+                    })
+                    .collect()
+            })
+            .collect();
+        let intens: Vec<u8> = (0..np).map(|k| (255 - k) as u8).collect();
+        let per_first = (622 - 24) / (8 * n);
+        let only = [0, per_first - 1, per_first, np - 1];
+        self.out.count(&format!("multi-frame-stm(invisible):n{n}x{np}"));
+        self.stm(d, &pats, &intens, &[], tag, Some(&only));
     }
 }
 
@@ -529,7 +721,7 @@ pub fn run(args: &Args) {
         [0.0, -1000.0, 0.0],
     ];
     for (pi, pose) in wit_poses.iter().enumerate() {
-        let mut d = ctx.open(pose);
+        let mut d = ctx.open(std::slice::from_ref(pose), 0);
         for (k, lp) in wit_points.iter().enumerate() {
             let lp2 = wit_points[(k + 1) % wit_points.len()];
             ctx.single(&mut d, *lp, lp2, (17 * k) as u8, 255 - (k as u8), &format!("witness{pi}.{k}"));
@@ -537,21 +729,67 @@ pub fn run(args: &Args) {
         // multi-focus witnesses: equal foci, opposite phasors, offsets relative to the first focus
         let a = Ctx::to_global(&d, [30.0, 40.0, 200.0]);
         let b = Ctx::to_global(&d, [-60.0, 10.0, 180.0]);
-        ctx.stm(&mut d, &[vec![(a, 0), (a, 0)], vec![(a, 77), (a, 77)]], &[200, 201], &[], "witness-equal-foci");
-        ctx.stm(&mut d, &[vec![(a, 0), (a, 128)], vec![(a, 10), (b, 10)]], &[1, 2], &[], "witness-opposite");
-        ctx.stm(&mut d, &[vec![(a, 40), (b, 100), (a, 200)], vec![(b, 255), (a, 0), (b, 1)]], &[0, 255], &[], "witness-offsets");
+        ctx.stm(&mut d, &[vec![(a, 0), (a, 0)], vec![(a, 77), (a, 77)]], &[200, 201], &[], "witness-equal-foci", None);
+        ctx.stm(&mut d, &[vec![(a, 0), (a, 128)], vec![(a, 10), (b, 10)]], &[1, 2], &[], "witness-opposite", None);
+        ctx.stm(&mut d, &[vec![(a, 40), (b, 100), (a, 200)], vec![(b, 255), (a, 0), (b, 1)]], &[0, 255], &[], "witness-offsets", None);
         let p8: Pattern = (0..8).map(|j| (Ctx::to_global(&d, [20.0 * j as f64 - 70.0, 15.0 * j as f64 - 50.0, 150.0 + 5.0 * j as f64]), (31 * j) as u8)).collect();
         let q8: Pattern = (0..8).map(|j| (a, (32 * j) as u8)).collect();
-        ctx.stm(&mut d, &[p8, q8], &[128, 64], &[], "witness-8");
+        ctx.stm(&mut d, &[p8, q8], &[128, 64], &[], "witness-8", None);
+        // fewer foci per pattern than the STM before on the same segment (8 -> 1 -> 2 -> 1)
+        ctx.single(&mut d, wit_points[1], wit_points[4], 33, 250, &format!("witness{pi}.after-8"));
+        ctx.stm(&mut d, &[vec![(a, 5), (b, 250)], vec![(b, 0), (a, 0)]], &[9, 10], &[], "witness-2-after-1", None);
+        ctx.single(&mut d, wit_points[6], wit_points[0], 0, 255, &format!("witness{pi}.after-2"));
+    }
+    // rigs (several devices in one geometry, different poses and sound speeds): witnesses with stable poses.
+    // Two devices side by side at different sound speeds; three devices, the middle one turned and slower; the
+    // home device (in whose frame the points lie) is the last one in the second rig.
+    let wit_rigs: [(Vec<Pose>, usize); 3] = [
+        (
+            vec![
+                Pose { pos: [0.0, 0.0, 0.0], quat: [1.0, 0.0, 0.0, 0.0], c: 340e3, kind: "rig-witness" },
+                Pose { pos: [200.0, 0.0, 0.0], quat: [1.0, 0.0, 0.0, 0.0], c: 400e3, kind: "rig-witness" },
+            ],
+            0,
+        ),
+        (
+            vec![
+                Pose { pos: [-300.0, 50.0, 20.0], quat: [h, 0.0, h, 0.0], c: 300e3, kind: "rig-witness" },
+                Pose { pos: [0.0, 0.0, 0.0], quat: [0.3, -0.5, 0.7, 0.4], c: 331.5e3, kind: "rig-witness" },
+                Pose { pos: [250.0, -100.0, 60.0], quat: [h, 0.0, 0.0, h], c: 372e3, kind: "rig-witness" },
+            ],
+            2,
+        ),
+        (
+            vec![
+                Pose { pos: [1000.0, 2000.0, -500.0], quat: [0.0, 1.0, 0.0, 0.0], c: 355e3, kind: "rig-witness" },
+                Pose { pos: [1000.0, 2000.0, -100.0], quat: [2.0, 2.0, 2.0, 2.0], c: 310e3, kind: "rig-witness" },
+            ],
+            1,
+        ),
+    ];
+    for (ri, (poses, home)) in wit_rigs.iter().enumerate() {
+        let mut d = ctx.open(poses, *home);
+        for (k, lp) in wit_points.iter().enumerate().filter(|(k, _)| k % 2 == 0 || thorough) {
+            let lp2 = wit_points[(k + 1) % wit_points.len()];
+            ctx.single(&mut d, *lp, lp2, (17 * k) as u8, 255 - (k as u8), &format!("rig-witness{ri}.{k}"));
+        }
+        let a = Ctx::to_global(&d, [30.0, 40.0, 200.0]);
+        let b = Ctx::to_global(&d, [-60.0, 10.0, 180.0]);
+        ctx.stm(&mut d, &[vec![(a, 40), (b, 100), (a, 200)], vec![(b, 255), (a, 0), (b, 1)]], &[0, 255], &[], "rig-witness-offsets", None);
+        let p8: Pattern = (0..8).map(|j| (Ctx::to_global(&d, [20.0 * j as f64 - 70.0, 15.0 * j as f64 - 50.0, 150.0 + 5.0 * j as f64]), (31 * j) as u8)).collect();
+        let q8: Pattern = (0..8).map(|j| (a, (32 * j) as u8)).collect();
+        ctx.stm(&mut d, &[p8, q8], &[128, 64], &[], "rig-witness-8", None);
+        ctx.single(&mut d, wit_points[1], wit_points[4], 33, 250, &format!("rig-witness{ri}.after-8"));
+        ctx.long(&mut d, 1 + ri % 2, 80 / (1 + ri % 2), &mut Rng::new(0xC07 + ri as u64), "rig-witness-long");
     }
     // zero sound speed: the firmware divides by the word (a panic is the answer on both sides)
     {
         let pose = Pose { pos: [0.0; 3], quat: [1.0, 0.0, 0.0, 0.0], c: 340e3, kind: "zero-sound-speed" };
         let mut w = World::new(1, 0);
-        w.geo = make_geo(&pose);
+        w.geo = make_geo(std::slice::from_ref(&pose));
         w.geo.set_sound_speed(0.0);
-        let st = send_stm(&mut w, &[vec![([0.0, 0.0, 150.0], 0)], vec![([0.0, 0.0, 150.0], 0)]], &[255, 255]);
-        if st.result == "ok" {
+        if let Ok(sts) = send_stm(&mut w, &[vec![([0.0, 0.0, 150.0], 0)], vec![([0.0, 0.0, 150.0], 0)]], &[255, 255]) {
+            let st = &sts[0];
             let fwline = format!("fw {} {:016x}", st.cw, st.words[0]);
             match &st.drives[0] {
                 Ok(dr) => ctx.out.line(&fwline, &drives_hex(dr)),
@@ -580,7 +818,7 @@ pub fn run(args: &Args) {
     for (qi, q) in grid_quats.iter().enumerate() {
         for &c in grid_c {
             let pose = Pose { pos: [if qi % 2 == 0 { 0.0 } else { 1000.0 }, 0.0, if qi > 2 { -250.0 } else { 0.0 }], quat: *q, c, kind: "grid" };
-            let mut d = ctx.open(&pose);
+            let mut d = ctx.open(std::slice::from_ref(&pose), 0);
             for (k, lp) in lattice.iter().enumerate() {
                 if (k + qi) % (if thorough { 2 } else { 3 }) != 0 {
                     continue;
@@ -588,14 +826,33 @@ pub fn run(args: &Args) {
                 let lp2 = lattice[(k * 7 + 3) % lattice.len()];
                 ctx.single(&mut d, *lp, lp2, 0, 255, "grid");
             }
+            ctx.long(&mut d, 1 + qi % 2, 80 / (1 + qi % 2), &mut rng, "grid-long");
         }
     }
 
-    // ---- random poses; per pose: random and boundary points, then multi-focus patterns
+    // ---- random poses (every third one a rig of 2–3 devices); per pose: random and boundary points, then
+    // multi-focus patterns, then a single focus again (fewer foci per pattern than before), then a two-frame STM
     let nposes = if thorough { 2500 } else { 250 };
-    for _ in 0..nposes {
+    for pi in 0..nposes {
         let pose = rand_pose(&mut rng);
-        let mut d = ctx.open(&pose);
+        let mut poses = vec![pose];
+        if pi % 3 == 2 {
+            // the other devices of the rig: within 400 mm per axis of the first (so that every point stays inside the
+            // record range of every device), any rotation, their own sound speed (1 in 4 rigs: all the same)
+            let same_c = rng.chance(1, 4);
+            for _ in 0..rng.range(1, 2) {
+                let mut q = rand_pose(&mut rng);
+                for a in 0..3 {
+                    q.pos[a] = poses[0].pos[a] + rf(&mut rng, -400.0, 400.0) as f32;
+                }
+                if same_c {
+                    q.c = poses[0].c;
+                }
+                poses.push(q);
+            }
+        }
+        let home = rng.below(poses.len() as u64) as usize;
+        let mut d = ctx.open(&poses, home);
         let npts = if thorough { 6 } else { 5 };
         for k in 0..npts {
             let mut lp = rand_local(&mut rng, 1000.0);
@@ -629,8 +886,10 @@ pub fn run(args: &Args) {
             let off = *rng.pick(&[0u8, 0, 1, 128, 255, roff]);
             ctx.single(&mut d, lp, lp2, off, rng.below(256) as u8, "random");
         }
+        let mut last_n = 1;
         for _ in 0..(if thorough { 4 } else { 3 }) {
             let n = rng.range(2, 8) as usize;
+            last_n = n;
             let mk = |rng: &mut Rng, d: &Dev| -> Pattern {
                 let style = rng.below(4);
                 let base = rand_local(rng, 1000.0);
@@ -653,7 +912,19 @@ pub fn run(args: &Args) {
             };
             let p0 = mk(&mut rng, &d);
             let p1 = mk(&mut rng, &d);
-            ctx.stm(&mut d, &[p0, p1], &[rng.below(256) as u8, rng.below(256) as u8], &[], "random-multi");
+            ctx.stm(&mut d, &[p0, p1], &[rng.below(256) as u8, rng.below(256) as u8], &[], "random-multi", None);
+        }
+        // foci per pattern going down on the same segment: a single focus after the multi-focus STMs
+        let (lp, lp2) = (rand_local(&mut rng, 1000.0), rand_local(&mut rng, 1000.0));
+        ctx.out.count(&format!("single-after-multi(invisible):{last_n}->1"));
+        // first with nothing in between (the Focus gains of `single` rewrite the segment as a gain), then with its references
+        let (g1, g2) = (Ctx::to_global(&d, lp2), Ctx::to_global(&d, lp));
+        ctx.stm(&mut d, &[vec![(g1, 7)], vec![(g2, 0)]], &[rng.below(256) as u8, 255], &[], "random-1-right-after-multi", None);
+        ctx.single(&mut d, lp, lp2, rng.below(256) as u8, rng.below(256) as u8, "random-after-multi");
+        // patterns beyond the first frame (every other pose in the quick tier)
+        if thorough || pi % 2 == 0 {
+            let n = if pi % 4 == 0 { 1 } else { 2 };
+            ctx.long(&mut d, n, 80 / n, &mut rng, "random-long");
         }
     }
     ctx.out.notes.push(format!(
@@ -662,6 +933,6 @@ pub fn run(args: &Args) {
     ));
     ctx.out.finish(
         "foci",
-        "a case is one FociSTM pattern read back on all 249 transducers (with its Focus-gain reference when N = 1); distinct by (pose bits, point bits, offsets, generator)",
+        "a case is one FociSTM pattern read back on all 249 transducers of one device (with its Focus-gain reference when N = 1); distinct by (device index in its rig and pose bits, point bits, offsets, generator); counters marked `(invisible)` are variations the model does not see (device history, foci per pattern going down, later frames); a rig's devices are visible to the model through `rig`/`keep`/`dev` lines",
     );
 }
